@@ -347,7 +347,7 @@ func checkC12(c *Ctx, r *Report) error {
 		return err
 	}
 	defer os.RemoveAll(scratch)
-	timeout := TierN(c.Tier, 1500, 4000, 2500)
+	timeout := TierN(c.Tier, 6000, 10000, 6000)
 
 	// writes of the real renderers: recorded once, in this process, with the recording wrapper
 	realWrites := map[string][]int{}
